@@ -3,9 +3,12 @@
 text and the path of its own scratch worktree of /repo. Nothing from /verif is shown to it.
 usage: tools/mkseedprompt.py C11 [n_changes]   -> prints the prompt; creates the worktree /tmp/seed/C11/wt"""
 import json, os, subprocess, sys
-pid = sys.argv[1]; n = int(sys.argv[2]) if len(sys.argv) > 2 else 3
+pid = sys.argv[1]; n = int(sys.argv[2]) if len(sys.argv) > 2 and not sys.argv[2].startswith("-") else 3
+start = int(sys.argv[sys.argv.index("--start") + 1]) if "--start" in sys.argv else 1
+root = sys.argv[sys.argv.index("--root") + 1] if "--root" in sys.argv else "/tmp/seed"
+avoid = sys.argv[sys.argv.index("--avoid") + 1] if "--avoid" in sys.argv else ""
 p = next(json.loads(l) for l in open("/verif/properties.jsonl") if json.loads(l)["id"] == pid)
-wt = f"/tmp/seed/{pid}/wt"; out = f"/tmp/seed/{pid}/out"
+wt = f"{root}/{pid}/wt"; out = f"{root}/{pid}/out"
 os.makedirs(out, exist_ok=True)
 if not os.path.exists(wt):
     subprocess.run(["git", "-C", "/repo", "worktree", "add", "--detach", wt, "HEAD"], check=True, capture_output=True)
@@ -25,11 +28,11 @@ YOUR TASK: produce {n} independent changes to the library source (files under ha
  (b) still imports, and the whole existing test suite, unedited, still passes with it:  cd {wt} && /venv/bin/python -m pytest -q -p no:cacheprovider --timeout=900 -x -o addopts=""   (≈3000 tests, 3-4 minutes; it must end with "N passed" and no failure);
  (c) needs something SPECIFIC to manifest — a particular interleaving or same-instant tie, a crash or fault at a particular point, a multi-step sequence of operations, an unusual input or configuration, or two cooperating sites that each look fine alone. NOT something that ordinary use would expose at once;
  (d) looks like something a maintainer could plausibly commit: a small "optimisation", refactoring, off-by-one, swapped comparison, dropped guard, reordered statements, stale variable — typically 1-15 changed lines. No sabotage that is obviously deliberate, no environment checks, no special-casing of magic values.
-The {n} changes must differ from each other in mechanism and in location (different functions, preferably different files / different clauses of the property). Read the anchored files carefully first and pick places where the property depends on a subtle detail.
+{("Earlier rounds already changed these functions; pick DIFFERENT functions and mechanisms: " + avoid + chr(10)) if avoid else ""}The {n} changes must differ from each other in mechanism and in location (different functions, preferably different files / different clauses of the property). Read the anchored files carefully first and pick places where the property depends on a subtle detail.
 
 NOTE: the current code may already violate some clause of the property in some situations (it has known open defects). A change only counts if your demonstration passes on the unchanged worktree and fails with your change.
 
-FOR EACH change k = 1..{n} write, under {out}/change_k/ :
+FOR EACH change k = {start}..{start + n - 1} write, under {out}/change_k/ :
   patch.diff  — `git -C {wt} diff` of the change against the worktree HEAD (must apply with `git apply -p1` at the repository root);
   demo.py     — a small standalone program that uses the library (imported from PYTHONPATH, public API where possible), builds the specific situation, checks the property clause, and exits 0 if it holds / exits non-zero (assert or sys.exit(1)) if it is violated. Deterministic (fixed seeds), < 60 s, no pytest needed. It must exit 0 on the unchanged worktree and non-zero with the change applied. Guard against hangs (if the change can livelock, bound the run with a max event count or signal.alarm and treat that as failure);
   meta.json   — {{"property": "{pid}", "breaks": "<which clause and how>", "needs": "<what specific situation is needed for it to manifest>", "files": ["<changed files>"], "summary": "<one sentence describing the change as a commit message would>"}}.
